@@ -40,7 +40,7 @@ CLAIMED = {
         note="Assumes contracts for net.Conn.Write / (*net.UDPConn).WriteToUDP / ReadFromUDP (0 <= n <= len), bufio.Reader.Peek and io.ReadFull as a byte stream (ghost position), net.IP.Equal. Independence of TCP segmentation is inherited from that assumed byte-stream contract, it is not a result. Concurrent senders: freshness of the buffer is proved, atomicity of one Write is assumed. SupportedServicesDIB bounded to 5 families as in C15.",
         ref="§3 C16"),
     "C03": dict(
-        text="Proof of the transition contracts of the tunnel sender: requestTunnel (lock taken first and released on every path; every frame sent in the call is the same TunnelReq{channel, seq0 (0 on TCP), data}; TCP: exactly one send, no wait; UDP: success only with a received ack carrying seq0 and status 0 and then seqNumber == seq0+1; matching ack with error status fails and still advances; non-matching acks change nothing; ticker = ResendInterval, timeout = ResponseTimeout, each created once), handleTunnelRes (offers on conn.ack only for the connection's channel) and requestConn (resets the counter to 0 under the lock).",
+        text="Proof of the transition contracts of the tunnel sender: requestTunnel (lock taken first and released on every path; every frame sent in the call is the same TunnelReq{channel, seq0 (0 on TCP), data}; TCP: exactly one send, no wait; UDP: success only with a received ack carrying seq0 and status 0 and then seqNumber == seq0+1; matching ack with error status fails and still advances; non-matching acks change nothing; ticker = ResendInterval, timeout = ResponseTimeout, each created once), handleTunnelRes (offers on conn.ack only for the connection's channel) and requestConn (resets the counter to 0 under the lock). fmt.Errorf/Sprintf are modelled as executing Error()/String() of operands whose dynamic type belongs to this module (this is what exposed the unbounded recursion of knxnet.ErrCode.String, repaired by 53b2d06).",
         note="Sequential model of the environment (DESIGN §2.4.5): knxnet.Socket, channels, goroutines, mutexes, timers and container/list are environment operations with ghost logs (send log per socket, sent/received count and last value per channel, held flag per mutex, ghost clock); select may take any case, receives may yield any well-typed value or 'closed'; loop-free goroutines are run to completion in place (assumed: eventually scheduled), long-running workers are logged and verified separately. Holds for every sequence of environment choices, NOT for interleavings with other goroutines touching the same state (that is C10), nor for liveness/wall-clock claims.",
         ref="§3 C03"),
     "C04": dict(
